@@ -293,7 +293,7 @@ def gen_case(rng, tier, kind=None, dtype=None, align=None, uf=None):
     k = np.dtype(dtype).kind
     kind = kind or rng.choice(KINDS)
     maxlen = 14 if tier == "quick" else 60
-    vclass = rng.choice(["small", "small", "extreme", "nonfinite"]) if kind in ("unary", "rl", "pyscalar", "npscalar") else "small"
+    vclass = rng.choice(["small", "small", "extreme", "nonfinite", "sparse"]) if kind in ("unary", "rl", "pyscalar", "npscalar") else "small"
     if vclass == "nonfinite" and k != "f":
         vclass = "extreme"
     if kind == "rl":
@@ -326,6 +326,9 @@ def gen_case(rng, tier, kind=None, dtype=None, align=None, uf=None):
         c.update(uf=uf or rng.choice(BINARY), via=rng.choice(["times2", "neg", "astype", "self"]), side=rng.choice("LR"))
     elif kind == "reduce":
         c["name"] = rng.choice(REDS)
+        if ("any" in c["name"] or "all" in c["name"] or rng.random() < 0.2) and k != "b":
+            c["vals"] = rl.gen_runs(rng, dtype, "sparse", maxlen)[0].tolist()
+            c["vclass"] = "sparse"
         if "mean" in c["name"] and k in "iu" and rng.random() < 0.5:
             c["vals"] = rl.gen_runs(rng, dtype, "extreme", maxlen)[0].tolist()
             c["vclass"] = "extreme"
